@@ -203,6 +203,7 @@ def run_replay(pid: str, path: str) -> int:
         v = json.load(f)
     from kverif.common import Result, import_kfac
 
+    os.environ['VERIF_SEED'] = str(v.get('seed', 0))
     import_kfac()
     res = Result()
     mod.replay(v['case'], res)
